@@ -271,7 +271,7 @@ pub fn point_event(id: u64, src: &str, oh: &Oh, ctx: &Ctx, t: NaiveDateTime, bou
         Some(x) => (daynum(x.date()) + 1, true),
         None => match horizon(&parsed, ctx, lo) {
             Some(h) if h.max(lo) - lo <= lim.max_days => (h.max(lo + 1), true),
-            _ => (lo + lim.max_days.min(800), false),
+            _ => (lo + lim.max_days.min(8000), false),
         },
     };
     let hi = hi.min(end_day + 1).max(lo);
